@@ -151,6 +151,9 @@ func runC15(w *World, tr *Trace) {
 			if r.Intn(3) == 0 {
 				meta["memory_layer"] = pick(r, []string{"episodic", "procedural", "semantic"})
 			}
+			if r.Intn(2) == 0 {
+				meta["content"] = pick(r, []string{"alpha note", "alpha beta", "beta only", "gamma"}) // text side of hybrid queries
+			}
 			if r.Intn(4) == 0 {
 				meta["_access_count"] = num(float64(r.Intn(5)))
 				if r.Intn(6) == 0 {
@@ -227,7 +230,7 @@ func runC15(w *World, tr *Trace) {
 				}
 			}
 		}
-		if err := w.E.VCreate(c15Index, "euclidean", 16, 200, "float32", "", nil, nil, cfg); err != nil {
+		if err := w.E.VCreate(c15Index, "euclidean", 16, 200, "float32", "english", nil, nil, cfg); err != nil {
 			panic(harnessErr{"create: " + err.Error()})
 		}
 		mc := *cfg
@@ -354,6 +357,26 @@ func runC15(w *World, tr *Trace) {
 				}
 				sim := 1 / (1 + refDistance("euclidean", q, mv.Base))
 				all = append(all, obs{x.ID, x.Score, x.Score / sim, sim, "VSearch (fused)"})
+			}
+			// hybrid query (text + vector, small k): a memory found by the text side only is aged like every other;
+			// the fused relevance is at most 1, so no score may exceed the memory's decay factor
+			for _, hq := range []string{"alpha", "beta"} {
+				hres, herr := w.E.VSearchGraph(c15Index, q, 2, "", hq, 200, 0.2, nil, false, nil)
+				if herr != nil {
+					continue
+				}
+				w.Probe("hybrid_memory_query")
+				for _, x := range hres {
+					mv := mi.Vecs[x.ID]
+					if mv == nil {
+						continue
+					}
+					want, known, why := refFactor(mv.Meta, cfg, nowSec)
+					if known && (x.Score > want+1e-6 || x.Score < -1e-9 || x.Score != x.Score) {
+						w.Fail("score_is_similarity_times_decay", "hybrid_hit_not_decayed", fmt.Sprintf("step %d hybrid query %q k=2: %s scores %g, above its decay factor %g (%s); metadata %s", i, hq, x.ID, x.Score, want, why, canonMeta(mv.Meta)), i)
+						break
+					}
+				}
 			}
 			scoreOf := map[string]map[string]float64{"VSearchWithScores": {}, "VSearch (fused)": {}}
 			for _, o := range all {
